@@ -362,6 +362,24 @@ func (d *Device) handleOpenrgb(ctx context.Context, wg *sync.WaitGroup) {
 		return
 	}
 
+	// a server that stops answering would keep this goroutine (and with it ProcessEvents) blocked in a read or write
+	// forever: once the device is gone it gets a moment to finish on its own (last frame), then the connection is closed
+	finished := make(chan struct{})
+	defer close(finished)
+	defer c.Close()
+	go func() {
+		select {
+		case <-finished:
+			return
+		case <-ctx.Done():
+		}
+		select {
+		case <-finished:
+		case <-time.After(time.Millisecond * 500):
+			c.Close()
+		}
+	}()
+
 	log.Info(fmt.Sprintf("[OpenRGB] Connected, finding controller..."), d.logFields(logger.Debug)...)
 
 	var dev openrgb.Device
